@@ -222,7 +222,8 @@ def check_datavector(ctx, fi):
         ok = 'self.total' in U(r)
         ctx.ob('requested-order', fi, r, ok, 'the normalised vector is scaled to self.total', construct='scaling of ' + U(r)[:50])
     s = [x for x in walk_shallow(fi.node) if isinstance(x, ast.Assign) and isinstance(x.value, ast.Call) and U(x.value.func) == 'sum']
-    ok = bool(s) and U(s[0].value.args[0]).replace(' ', '') == '(self.potentials[cl]forclinself.cliques)'
+    from ..srcmodel import alpha_text, alpha_of
+    ok = bool(s) and alpha_text(s[0].value.args[0]) == alpha_of('(self.potentials[cl] for cl in self.cliques)')
     ctx.ob('ve-equations', fi, s[0] if s else fi.node, ok, 'the joint log-density is the sum of all clique potentials of the model')
 
 
@@ -238,7 +239,8 @@ def check_krondot(ctx, fi):
     ctx.ob('requested-order', fi, loops[0] if loops else fi.node, ok,
            'query matrices are paired with attributes in domain order: zip(self.domain.attrs, %s)' % m)
     tr = [c for c in calls_in(fi.node) if isinstance(c.func, ast.Attribute) and c.func.attr == 'transpose']
-    ok = bool(tr) and elim is not None and U(tr[0].args[0]).replace(' ', '') == "['%s-answer'%aforain" + elim + ']'
+    from ..srcmodel import alpha_text, alpha_of
+    ok = bool(tr) and elim is not None and alpha_text(tr[0].args[0]) == alpha_of("['%s-answer' % a for a in " + elim + ']')
     ctx.ob('requested-order', fi, tr[0] if tr else fi.node, ok, 'the result is transposed to the answer axes in domain order')
     # the normaliser the answers are divided by is the partition function of the model alone: it must not depend on the query
     # matrices (flow-sensitive dependency walk: `factors` depends on them only after the query factors have been appended)
